@@ -31,6 +31,7 @@ type c06op struct {
 	key  int
 	d    int
 	fail uint // bitmask of keys the callback fails on
+	old  bool // the record carries an earlier flowEndSeconds than the flow has seen
 }
 
 type c06sys struct {
@@ -48,6 +49,9 @@ func c06Ops(nkeys int) []c06op {
 	for k := 0; k < nkeys; k++ {
 		ops = append(ops, c06op{name: fmt.Sprintf("Rec(k%d)", k), kind: 'r', key: k, keys: []int{k}})
 	}
+	// a record that reports an earlier flow end than the flow has already seen (late or re-ordered): it is a
+	// new record all the same and pushes the inactive deadline back
+	ops = append(ops, c06op{name: "RecOld(k0)", kind: 'r', key: 0, keys: []int{0}, old: true})
 	// a record the aggregation process cannot take in (its template lacks flowStartSeconds and httpVals)
 	ops = append(ops, c06op{name: "RecBad(k0)", kind: 'b', key: 0, keys: []int{0}})
 	// one message carrying records of several flows
@@ -151,7 +155,11 @@ func (s *c06sys) Apply(opi int) (v *xplore.Violation) {
 		for _, k := range op.keys {
 			s.count[k]++
 			c := s.count[k]
-			recs = append(recs, aggfix.Record(aggfix.Spec{Key: k, FlowType: 1, From: aggfix.Both, Start: 1000, End: 1000 + c,
+			end := 1000 + c
+			if op.old {
+				end = 950 // before every end time an ordinary record carries
+			}
+			recs = append(recs, aggfix.Record(aggfix.Spec{Key: k, FlowType: 1, From: aggfix.Both, Start: 900, End: end,
 				PktTot: uint64(c) * 10, PktDelta: 10, OctTot: uint64(c) * 1000, OctDelta: 1000, TCPState: "ESTABLISHED"}))
 		}
 		if err := s.ap.AggregateMsgByFlowKey(aggfix.Msg(recs...)); err != nil {
@@ -166,7 +174,7 @@ func (s *c06sys) Apply(opi int) (v *xplore.Violation) {
 		}
 	case 'b':
 		k := op.key
-		rec := aggfix.Record(aggfix.Spec{Key: k, FlowType: 1, From: aggfix.Both, Start: 1000, End: 1000 + s.count[k] + 1,
+		rec := aggfix.Record(aggfix.Spec{Key: k, FlowType: 1, From: aggfix.Both, Start: 900, End: 1000 + s.count[k] + 1,
 			PktTot: uint64(s.count[k]+1) * 10, PktDelta: 10, OctTot: uint64(s.count[k]+1) * 1000, OctDelta: 1000, TCPState: "ESTABLISHED", OmitHTTPVals: true, OmitStart: true})
 		err := s.ap.AggregateMsgByFlowKey(aggfix.Msg(rec))
 		// the statement does not say what a refused record does to the deadlines of a flow that exists, nor
